@@ -339,29 +339,46 @@ func (x *Exec) concretize(t *Term, what string) int64 {
 		return x.replayEntry('v', cond)
 	}
 	var vals []int64
-	x.sol.Push()
-	for {
-		x.R.feas(1)
-		r := x.sol.Check()
-		if r == "unsat" {
-			break
+	enumerate := func(window bool) bool {
+		vals = vals[:0]
+		x.sol.Push()
+		if window {
+			// the case-split bound was hit: keep the small values (where index/length slips live) and
+			// report the rest as unexplored — the run can then still confirm a violation, never a success
+			m2 := int64(-2)
+			lo, hi := x.tb.Const(t.sort.W, uint64(m2)), x.tb.Const(t.sort.W, uint64(int64(x.casemax-3)))
+			x.sol.Assert(x.tb.And(x.tb.Sle(lo, t), x.tb.Sle(t, hi)))
 		}
-		if r != "sat" {
-			x.sol.Pop(1)
-			panic(unsupported{"solver unknown while enumerating values of " + what})
+		for {
+			x.R.feas(1)
+			r := x.sol.Check()
+			if r == "unsat" {
+				break
+			}
+			if r != "sat" {
+				x.sol.Pop(1)
+				panic(unsupported{"solver unknown while enumerating values of " + what})
+			}
+			vs, err := x.sol.GetValues([]*Term{t})
+			if err != nil {
+				x.sol.Pop(1)
+				panic(unsupported{"get-value failed: " + err.Error()})
+			}
+			c := x.tb.Const(t.sort.W, vs[0])
+			vals = append(vals, c.sval())
+			if len(vals) > x.casemax {
+				x.sol.Pop(1)
+				return false
+			}
+			x.sol.Assert(x.tb.Not(x.tb.Eq(t, c)))
 		}
-		vs, err := x.sol.GetValues([]*Term{t})
-		if err != nil {
-			x.sol.Pop(1)
-			panic(unsupported{"get-value failed: " + err.Error()})
-		}
-		c := x.tb.Const(t.sort.W, vs[0])
-		vals = append(vals, c.sval())
-		if len(vals) > x.casemax {
-			x.sol.Pop(1)
+		return true
+	}
+	if !enumerate(false) {
+		x.R.inconclusive(fmt.Sprintf("%s: more than %d feasible values for %s (case-split bound); only the values in [-2,%d] were explored", x.harness, x.casemax, what, x.casemax-3))
+		if !enumerate(true) {
 			panic(unsupported{fmt.Sprintf("more than %d feasible values for %s (case-split bound)", x.casemax, what)})
 		}
-		x.sol.Assert(x.tb.Not(x.tb.Eq(t, c)))
 	}
 	x.sol.Pop(1)
 	if len(vals) == 0 {
